@@ -296,3 +296,5 @@ PROPS["C14"]["claim"] = PROPS["C14"]["explanation"] = PROPS["C14"]["explanation"
     " ArgScanner::done / Complete::new (real bodies): completion mode exists iff the completion marker was seen, and starts with no candidates.")
 PROPS["C18"]["claim"] = PROPS["C18"]["explanation"] = PROPS["C18"]["explanation"] + (
     " lemma.C18.undeclared_variables_are_irrelevant: the value read depends on the environment only at the declared names (two environments that agree there give the same result).")
+PROPS["C12"]["claim"] = PROPS["C12"]["explanation"] = PROPS["C12"]["explanation"] + (
+    " ParsePositional::meta (real body): a positional is shown with its metavariable and help, behind the `--` marker (Meta::Strict) iff it is `strict`.")
